@@ -1,32 +1,191 @@
 /-
   C03 — Peer-controlled bytes never crash the process.
 
-  This file is the index of the property: for every network-facing decoder / stateful
-  receiver named by the property it says which theorem shows that NO input reaches a Go
-  run-time fault in the model of that code, and it holds the kernel-decided table of the
-  fault sites (index, slice, make, division, fixed-width conversion, explicit panic,
-  unchecked type assertion) counted per function from the CURRENT source.  The theorems
-  themselves live in the per-component property modules listed in tools/hv/props/C03.py
-  (`extra_props_modules`); they are audited and re-checked together with this one.
+  This file is the index of the property.  For every network-facing decoder / stateful
+  receiver the property names it restates the theorem showing that NO input (and, for the
+  stateful ones, no input sequence from any reachable state) reaches a Go run-time fault in
+  the model of that code — models in which every index, slice, make and narrowing conversion
+  is an explicit possibly-panicking operation (`Hy.Res`).  It also holds the kernel-decided
+  table of the fault sites counted per function from the CURRENT source of the 17 anchored
+  files (`sites_match`): a new index/slice/make/division/conversion/panic site in any of them
+  changes the regenerated table and fails here, even when no sampled input reaches it.
+
+  The models are tied to the code by the differential streams of the owning properties
+  (C04 frame, C05 frag/defrag, C13 salamander, C14 gecko, C17 sniff, C20 punch) and by the
+  streams listed in tools/hv/props/C03.py, all of which run the real decoders under recover()
+  on exact-size (cap == len) inputs.
 -/
 import Hy.Props.C03Speedtest
 import Hy.Props.C04
+import Hy.Props.C05
+import Hy.Props.C13
+import Hy.Props.C14
+import Hy.Props.C17
+import Hy.Props.C20
+import Hy.Gen.SitesC03
 namespace Hy.Props.C03
 open Hy
 
-/-- TCP framing (proxy.go): readers allocate at most the protocol limit whatever the peer declares -/
+/-! ### proxy stream frames (core/internal/protocol/proxy.go) -/
+
+/-- ReadTCPRequest / ReadTCPResponse allocate at most the protocol limit whatever the peer declares -/
 theorem frame_readers_bounded (cs : List Bytes) :
     Frame.requestAlloc Frame.chunked cs ≤ 2048 ∧ Frame.responseAlloc Frame.chunked cs ≤ 2048 :=
   C04.alloc_bounded cs
 
-/-- speed-test server transfer loop: slice in bounds, uint32 counter never wraps -/
+/-! ### UDP datagrams and fragments (proxy.go ParseUDPMessage, frag.go; server/client receive paths) -/
+
+/-- ParseUDPMessage: every datagram gives a message or an error -/
+theorem udp_parse_total (bs : Bytes) : Res.NoPanic (Frag.parseUDPMessage bs) := C05.parse_total bs
+
+/-- FragUDPMessage (reply path; address length and datagram limit are controlled by the peer and the path) -/
+theorem udp_frag_total (m : Frag.UDPMessage) (L : Int) : Res.NoPanic (Frag.fragUDP m L) := C05.frag_total m L
+
+/-- Defragger.Feed: every history of messages, with any field values the wire allows -/
+theorem udp_defrag_total (ms : List Frag.UDPMessage) : Res.NoPanic (Frag.feedAll {} ms) := C05.feed_total ms
+
+/-! ### Salamander (extras/obfs/salamander.go, conn.go) -/
+
+/-- packets too short to hold a salt and a payload byte are dropped (the model of Deobfuscate is
+    total by construction: its only index arithmetic is guarded by this length test) -/
+theorem salamander_short_dropped (H : Bytes → Bytes) (psk w : Bytes) (cap : Nat) (h : w.length ≤ 8) :
+    Salamander.deobfuscate H psk w cap = none := C13.short_dropped H psk w cap h
+
+/-! ### Gecko (extras/obfs/gecko.go, gecko_frame.go) -/
+
+theorem gecko_decode_total (inp : Bytes) : Res.NoPanic (Gecko.decodeFrame inp) := C14.decode_total inp
+
+/-- the receiver: every datagram, from EVERY receiver state -/
+theorem gecko_rx_total (st : Gecko.St) (src : Nat) (d : Bytes) (now : Nat) (tie : Gecko.Key) (pcap : Nat) :
+    Res.NoPanic (Gecko.rxStep st src d now tie pcap) := C14.rx_total st src d now tie pcap
+
+/-! ### hole-punch / STUN demux (extras/realm/punch.go, punch_conn.go) -/
+
+theorem punch_decode_total (pkt : Bytes) (m : Punch.Meta) : Res.NoPanic (Punch.decode Sha256.hash pkt m) :=
+  C20.decode_total_sha256 pkt m
+
+/-- the demultiplexing reader over any sequence of incoming packets, any registry -/
+theorem punch_read_total (ins : List Punch.Input) (c : Punch.Conn) :
+    ∃ c' r k, Punch.readFrom Sha256.hash c ins = .ok (c', r, k) ∧ c'.reg = c.reg :=
+  C20.read_total_sha256 ins c
+
+/-! ### first bytes of a sniffed TCP / UDP flow (extras/sniff) -/
+
+theorem sniff_tcp_total (cfg : Sniff.Cfg) (P : Sniff.Parsers) (addr : Bytes) (s : Sniff.Stream) :
+    Res.NoPanic (Sniff.sniffTCP cfg P addr s) := C17.tls_record_arith_total cfg P addr s
+
+theorem sniff_quic_total (C : Quic.Crypto) (sortFn : List Quic.Frame → List Quic.Frame)
+    (sni : Bytes → Option Bytes) (addr data : Bytes) (hc : C17.CryptoContract C sortFn) :
+    Res.NoPanic (Quic.sniffUDP Quic.fixed C sortFn sni addr data) :=
+  C17.quic_sniff_total C sortFn sni addr data hc
+
+/-! ### speed-test server and the client's reply readers (extras/outbounds/speedtest) -/
+
 theorem speedtest_loop_safe (fuel rem : Nat) (reads : List (Nat × Bool)) (hrem : rem < 4294967296)
     (hc : C03Speedtest.Contract rem reads) :
     ∃ e r, Speedtest.loop Speedtest.chunkSize fuel rem reads = .ok (e, r) ∧ r ≤ rem :=
   C03Speedtest.loop_safe fuel rem reads hrem hc
 
-/-- a hostile speed-test server cannot make the client allocate more than 64 KiB for a message -/
 theorem speedtest_reply_alloc_bounded (bs : Bytes) : Speedtest.replyAlloc Frame.flat bs ≤ 65535 :=
   C03Speedtest.response_alloc_bounded bs
+
+/-! ### the fault-site table (regenerated from the source on every run)
+
+  per function: [index, slice, make, div/mod, fixed-width conversion, panic, unchecked type assertion].
+  Covered by (theorem above / owning property):
+    proxy.go ReadTCP*/WriteTCP*/varintPut ........ C04 (alloc_bounded, roundtrips; writers sized by quicvarint.Len)
+    proxy.go ParseUDPMessage/Serialize/HeaderSize . udp_parse_total, C05.serialize_size
+    frag.go ...................................... udp_frag_total, udp_defrag_total
+    server/udp.go, client/udp.go ................. map reads and `make` of constant size only; receive paths = parse → Feed
+                                                   (C07 no-panic invariants for the server manager)
+    salamander.go, conn.go ....................... salamander_short_dropped, C13.counts_read/counts_write (2048-byte buffers)
+    gecko.go, gecko_frame.go ..................... gecko_decode_total, gecko_rx_total, C14.split_total/encode_total
+    punch.go, punch_conn.go ...................... punch_decode_total, punch_read_total, C20.encode_total
+    stun.go ...................................... pion/stun is external (run under recover()); netIPPortToAddrPort's
+                                                   copies are onto fixed [4]/[16] arrays from To4/To16 results (C20 model)
+    sniff.go, internal/quic/* .................... sniff_tcp_total, sniff_quic_total (newProtectionKey/hkdfExpandLabel
+                                                   panics only on impossible HKDF/AES key-size errors: constant sizes)
+    speedtest/* .................................. speedtest_loop_safe, speedtest_reply_alloc_bounded, C03Speedtest.*
+-/
+theorem sites_match : Gen.SitesC03.sites = [
+    ("core/client/udp.go:newUDPSessionManager", [0, 0, 1, 0, 0, 0, 0]),
+    ("core/client/udp.go:udpConn.Send", [0, 0, 0, 0, 2, 0, 0]),
+    ("core/client/udp.go:udpSessionManager.NewUDP", [1, 0, 2, 0, 0, 0, 0]),
+    ("core/client/udp.go:udpSessionManager.feed", [1, 0, 0, 0, 0, 0, 0]),
+    ("core/internal/frag/frag.go:Defragger.Feed", [3, 1, 2, 0, 2, 0, 0]),
+    ("core/internal/frag/frag.go:FragUDPMessage", [1, 1, 1, 1, 2, 0, 0]),
+    ("core/internal/protocol/proxy.go:ParseUDPMessage", [0, 2, 0, 0, 1, 0, 0]),
+    ("core/internal/protocol/proxy.go:ReadTCPRequest", [0, 0, 1, 0, 1, 0, 0]),
+    ("core/internal/protocol/proxy.go:ReadTCPResponse", [1, 1, 1, 0, 1, 0, 0]),
+    ("core/internal/protocol/proxy.go:UDPMessage.HeaderSize", [0, 0, 0, 0, 2, 0, 0]),
+    ("core/internal/protocol/proxy.go:UDPMessage.Serialize", [2, 4, 0, 0, 1, 0, 0]),
+    ("core/internal/protocol/proxy.go:WriteTCPRequest", [0, 4, 1, 0, 7, 0, 0]),
+    ("core/internal/protocol/proxy.go:WriteTCPResponse", [2, 4, 1, 0, 6, 0, 0]),
+    ("core/internal/protocol/proxy.go:varintPut", [15, 0, 0, 0, 15, 1, 0]),
+    ("core/server/udp.go:newUDPSessionManager", [0, 0, 1, 0, 0, 0, 0]),
+    ("core/server/udp.go:sendMessageAutoFrag", [0, 0, 0, 0, 2, 0, 0]),
+    ("core/server/udp.go:udpSessionEntry.checkAddr", [2, 0, 1, 0, 0, 0, 0]),
+    ("core/server/udp.go:udpSessionEntry.receiveLoop", [0, 1, 2, 0, 0, 0, 0]),
+    ("core/server/udp.go:udpSessionManager.Run", [0, 0, 1, 0, 0, 0, 0]),
+    ("core/server/udp.go:udpSessionManager.cleanup", [0, 0, 1, 0, 0, 0, 0]),
+    ("core/server/udp.go:udpSessionManager.feed", [2, 0, 0, 0, 0, 0, 0]),
+    ("extras/obfs/conn.go:obfsPacketConn.ReadFrom", [0, 1, 0, 0, 0, 0, 0]),
+    ("extras/obfs/conn.go:obfsPacketConn.WriteTo", [0, 1, 0, 0, 0, 0, 0]),
+    ("extras/obfs/conn.go:wrapPacketConn", [0, 0, 2, 0, 0, 0, 0]),
+    ("extras/obfs/gecko.go:geckoPacketConn.ReadFrom", [1, 2, 0, 0, 0, 0, 0]),
+    ("extras/obfs/gecko.go:geckoPacketConn.WriteTo", [1, 0, 0, 0, 0, 0, 0]),
+    ("extras/obfs/gecko.go:geckoPacketConn.acceptChunk", [6, 1, 3, 0, 2, 0, 0]),
+    ("extras/obfs/gecko.go:geckoPacketConn.dropEntryLocked", [3, 0, 0, 0, 0, 0, 0]),
+    ("extras/obfs/gecko.go:geckoPacketConn.gcLoop", [0, 0, 0, 1, 0, 0, 0]),
+    ("extras/obfs/gecko.go:geckoPacketConn.randomPadLen", [0, 0, 0, 0, 1, 0, 0]),
+    ("extras/obfs/gecko.go:geckoPacketConn.writeFragmented", [0, 2, 1, 1, 4, 0, 0]),
+    ("extras/obfs/gecko.go:newGeckoPacketConn", [0, 0, 4, 0, 0, 0, 0]),
+    ("extras/obfs/gecko.go:randIntn", [0, 2, 0, 1, 2, 0, 0]),
+    ("extras/obfs/gecko_frame.go:decodeFrame", [4, 2, 0, 0, 2, 0, 0]),
+    ("extras/obfs/gecko_frame.go:encodeFrame", [3, 3, 0, 0, 3, 0, 0]),
+    ("extras/obfs/salamander.go:newSalamanderObfuscator", [0, 0, 1, 0, 0, 0, 0]),
+    ("extras/obfs/salamander.go:salamanderObfuscator.Deobfuscate", [2, 2, 0, 1, 0, 0, 0]),
+    ("extras/obfs/salamander.go:salamanderObfuscator.Obfuscate", [2, 2, 0, 1, 0, 0, 0]),
+    ("extras/obfs/salamander.go:salamanderObfuscator.keyLocked", [0, 2, 0, 0, 0, 0, 0]),
+    ("extras/outbounds/speedtest/protocol.go:readDownloadResponse", [2, 1, 1, 0, 0, 0, 0]),
+    ("extras/outbounds/speedtest/protocol.go:readUploadResponse", [2, 1, 1, 0, 0, 0, 0]),
+    ("extras/outbounds/speedtest/protocol.go:writeDownloadRequest", [1, 1, 1, 0, 0, 0, 0]),
+    ("extras/outbounds/speedtest/protocol.go:writeDownloadResponse", [2, 2, 1, 0, 1, 0, 0]),
+    ("extras/outbounds/speedtest/protocol.go:writeUploadRequest", [1, 1, 1, 0, 0, 0, 0]),
+    ("extras/outbounds/speedtest/protocol.go:writeUploadResponse", [2, 2, 1, 0, 1, 0, 0]),
+    ("extras/outbounds/speedtest/protocol.go:writeUploadSummary", [0, 1, 1, 1, 1, 0, 0]),
+    ("extras/outbounds/speedtest/server.go:handleDownload", [0, 1, 1, 0, 0, 0, 0]),
+    ("extras/outbounds/speedtest/server.go:handleUpload", [0, 1, 1, 0, 1, 0, 0]),
+    ("extras/outbounds/speedtest/server.go:server", [2, 1, 0, 0, 0, 0, 0]),
+    ("extras/realm/punch.go:DecodePunchPacket", [1, 5, 0, 0, 0, 0, 0]),
+    ("extras/realm/punch.go:EncodePunchPacket", [1, 8, 2, 0, 1, 0, 0]),
+    ("extras/realm/punch.go:randomPaddingLength", [0, 0, 0, 0, 1, 0, 0]),
+    ("extras/realm/punch.go:xorPunchPacket", [2, 0, 0, 1, 0, 0, 0]),
+    ("extras/realm/punch_conn.go:NewPunchPacketConn", [0, 0, 3, 0, 0, 0, 0]),
+    ("extras/realm/punch_conn.go:PunchPacketConn.AddPunchAttempt", [1, 0, 0, 0, 0, 0, 0]),
+    ("extras/realm/punch_conn.go:PunchPacketConn.ReadFrom", [0, 2, 0, 0, 0, 0, 0]),
+    ("extras/realm/stun.go:Discover", [2, 1, 2, 0, 0, 0, 0]),
+    ("extras/realm/stun.go:DiscoverWithDemux", [2, 0, 1, 0, 0, 0, 0]),
+    ("extras/realm/stun.go:finishSTUNResults", [0, 0, 1, 0, 0, 0, 0]),
+    ("extras/realm/stun.go:netIPPortToAddrPort", [0, 2, 0, 0, 2, 0, 0]),
+    ("extras/realm/stun.go:resolveSTUNServers", [2, 0, 1, 0, 0, 0, 0]),
+    ("extras/realm/stun.go:sendSTUNRequests", [1, 0, 1, 0, 0, 0, 0]),
+    ("extras/sniff/internal/quic/header.go:ParseInitialHeader", [0, 0, 0, 0, 1, 0, 0]),
+    ("extras/sniff/internal/quic/header.go:beUint32", [0, 0, 1, 0, 0, 0, 0]),
+    ("extras/sniff/internal/quic/header.go:parseLongHeader", [0, 0, 3, 0, 5, 0, 0]),
+    ("extras/sniff/internal/quic/packet_protector.go:PacketProtector.UnProtect", [9, 7, 0, 0, 5, 0, 0]),
+    ("extras/sniff/internal/quic/packet_protector.go:ProtectionKey.nonce", [2, 1, 1, 0, 1, 0, 0]),
+    ("extras/sniff/internal/quic/packet_protector.go:decodePacketNumber", [0, 0, 0, 1, 1, 0, 0]),
+    ("extras/sniff/internal/quic/packet_protector.go:hkdfExpandLabel", [0, 0, 1, 0, 1, 1, 0]),
+    ("extras/sniff/internal/quic/packet_protector.go:newProtectionKey", [0, 2, 2, 0, 0, 4, 0]),
+    ("extras/sniff/internal/quic/payload.go:ReadCryptoPayload", [0, 1, 0, 0, 1, 0, 0]),
+    ("extras/sniff/internal/quic/payload.go:assembleCryptoFrames", [7, 1, 1, 0, 2, 0, 0]),
+    ("extras/sniff/internal/quic/payload.go:extractCryptoFrames", [0, 0, 1, 0, 3, 0, 0]),
+    ("extras/sniff/sniff.go:Sniffer.Check", [0, 0, 0, 0, 2, 0, 0]),
+    ("extras/sniff/sniff.go:Sniffer.TCP", [4, 7, 3, 0, 2, 0, 0]),
+    ("extras/sniff/sniff.go:Sniffer.UDP", [1, 0, 0, 0, 0, 0, 0]),
+    ("extras/sniff/sniff.go:Sniffer.isHTTP", [0, 1, 0, 0, 0, 0, 0]),
+    ("extras/sniff/sniff.go:Sniffer.isTLS", [4, 0, 0, 0, 0, 0, 0]),
+    ("extras/sniff/sniff.go:teeReader.Read", [0, 3, 0, 0, 0, 0, 0])] := by decide
 
 end Hy.Props.C03
